@@ -12,6 +12,8 @@ Seams set here (never in the importable package):
 * ``trace_width``  -> ``face.helpers.get_wrap_width`` while the modules execute
 * ``set_factory``  -> the name ``set`` in ``glom.core``'s globals *before* the module body
                       runs (register_op runs at import of mutation.py)
+* ``threading``    -> ``import threading`` inside the glom sources yields the instance's simulated module
+                      (``simthreading``): locks are owned by simulated tasks, waiting is a kernel decision
 * after load: ``core.PATH_STAR``, ``Path._MAX_CACHE`` are plain attributes of the private
   module / class and are set by the caller.
 """
@@ -45,8 +47,9 @@ def _code_for(path):
 
 
 class _PrivLoader(importlib.abc.Loader):
-    def __init__(self, path, is_pkg, pre_globals):
+    def __init__(self, path, is_pkg, pre_globals, builtins_ns=None):
         self.path, self.is_pkg, self.pre_globals = path, is_pkg, pre_globals
+        self.builtins_ns = builtins_ns
 
     def create_module(self, spec):
         return None
@@ -55,13 +58,31 @@ class _PrivLoader(importlib.abc.Loader):
         pre = self.pre_globals.get(module.__name__)
         if pre:
             module.__dict__.update(pre)
+        if self.builtins_ns is not None:
+            module.__dict__['__builtins__'] = self.builtins_ns
         exec(_code_for(self.path), module.__dict__)
 
 
+def _builtins_with_threading(shim):
+    """the builtins namespace of the private modules: ``import threading`` (any spelling) yields the
+    instance's simulated module (see simthreading)"""
+    import builtins
+    real_import = builtins.__import__
+
+    def sim_import(name, globals=None, locals=None, fromlist=(), level=0):
+        if level == 0 and name == 'threading':
+            return shim
+        return real_import(name, globals, locals, fromlist, level)
+    ns = dict(builtins.__dict__)
+    ns['__import__'] = sim_import
+    return ns
+
+
 class _PrivFinder(importlib.abc.MetaPathFinder):
-    def __init__(self, src, pre_globals):
+    def __init__(self, src, pre_globals, builtins_ns=None):
         self.root = os.path.join(src, 'glom')
         self.pre_globals = pre_globals
+        self.builtins_ns = builtins_ns
 
     def find_spec(self, fullname, path=None, target=None):
         if fullname != 'glom' and not fullname.startswith('glom.'):
@@ -71,14 +92,14 @@ class _PrivFinder(importlib.abc.MetaPathFinder):
         if os.path.isdir(base) and os.path.exists(os.path.join(base, '__init__.py')):
             p = os.path.join(base, '__init__.py')
             spec = importlib.util.spec_from_loader(
-                fullname, _PrivLoader(p, True, self.pre_globals), origin=p, is_package=True)
+                fullname, _PrivLoader(p, True, self.pre_globals, self.builtins_ns), origin=p, is_package=True)
             spec.submodule_search_locations = [base]
             spec.has_location = True
             return spec
         p = base + '.py'
         if os.path.exists(p):
             spec = importlib.util.spec_from_loader(
-                fullname, _PrivLoader(p, False, self.pre_globals), origin=p)
+                fullname, _PrivLoader(p, False, self.pre_globals, self.builtins_ns), origin=p)
             spec.has_location = True
             return spec
         return None
@@ -88,10 +109,11 @@ class Instance:
     """A private glom: attribute access goes to the package namespace;
     ``.core``, ``.matching`` ... are the private submodules."""
 
-    def __init__(self, modules, src):
+    def __init__(self, modules, src, sim_threading=None):
         self._modules = modules
         self._src = src
         self.pkg = modules['glom']
+        self.sim_threading = sim_threading
 
     def __getattr__(self, name):
         mods = object.__getattribute__(self, '_modules')
@@ -113,7 +135,9 @@ def load(src=None, glom_debug=False, trace_width=None, set_factory=None, extra=(
         pre_globals['glom.core'] = {'set': set_factory}
     saved = {k: sys.modules.pop(k) for k in list(sys.modules)
              if k == 'glom' or k.startswith('glom.')}
-    finder = _PrivFinder(src, pre_globals)
+    from . import simthreading
+    shim = simthreading.SimThreading()
+    finder = _PrivFinder(src, pre_globals, _builtins_with_threading(shim))
     sys.meta_path.insert(0, finder)
     old_env = os.environ.get('GLOM_DEBUG')
     import face.helpers as fh
@@ -142,7 +166,7 @@ def load(src=None, glom_debug=False, trace_width=None, set_factory=None, extra=(
             if k == 'glom' or k.startswith('glom.'):
                 del sys.modules[k]
         sys.modules.update(saved)
-    return Instance(mods, src)
+    return Instance(mods, src, shim)
 
 
 def apply_knobs(G, max_cache=None, path_star=None):
